@@ -240,4 +240,19 @@ func init() {
 		Assume:  append([]string{"transactions are built by the harness (unsigned): publishing does not verify signatures"}, walletAssume...),
 		Outside: "longer histories, several simultaneous unconfirmed chains, leases on the inputs, the real rpc error mapping of each backend (chain.MapRPCErr)",
 	})
+	reg(&propDef{
+		ID: "C06",
+		Runs: []hrun{
+			{Pkg: walletPkg, Fn: "ZzC06Eligible", Tiers: "qt", Reach: []string{"c06-end", "several-eligible"}, Bound: "wallet with 9 credits (confirmed early/late, other scope, unconfirmed, coinbase, spent by an unconfirmed tx, locked, leased, other account); findEligibleOutputs for scope in {any, BIP84, BIP49+} x account in {0,1} with SYMBOLIC minconf, chain height and coinbase maturity"},
+			{Pkg: walletPkg, Fn: "ZzC06CreateSmall", Tiers: "qt", Reach: []string{"c06-end", "ineligible-refused", "second-send", "several-inputs"}, Bound: "txToOutputs on the same wallet made watching-only (authored and committed, not signed): largest-first, minconf 0..1, no explicit input or the locked coin, symbolic amount; then publish and create a second transaction"},
+			{Pkg: walletPkg, Fn: "ZzC06Create", Tiers: "t", Reach: []string{"c06-end", "ineligible-refused", "second-send", "insufficient"}, Bound: "both strategies (every shuffle order), explicit input from {none, eligible, leased, locked, spent}"},
+			{Pkg: walletPkg, Fn: "ZzC06CreateFull", Tiers: "t", Reach: []string{"c06-end", "ineligible-refused"}, Bound: "minconf 0..2, every coin as explicit input"},
+		},
+		Assume: append([]string{
+			"NOT covered: 'every input carries a signature that verifies under standard script rules' - ECDSA/Schnorr signing and the script VM cannot be encoded; transactions are authored on a watching-only wallet and stay unsigned",
+			"the lease cannot expire within the modelled clock range (100-year lease): lease expiry is C12's subject",
+			"math/rand picks (coin shuffle, change position) are explored exhaustively",
+		}, walletAssume...),
+		Outside: "signature validity; longer send sequences; reorgs between sends (C01/C02 cover the store side); PSBT funding paths",
+	})
 }
